@@ -15,6 +15,7 @@ RULE = ("files written field by field from the exported Lean Spec (random / min 
         "tail junk x wrong header count), read with the real reader and decoded by the Lean driver with the generated "
         "layout; a case = (file variant, record); non-trivial = record with at least one non-zero field; distinct by "
         "(variant, record index, value mode)")
+RULE += (" In the thorough tier, and in the quick tier whenever the source differs from the validated baseline, a LONG-PASS stream is added (passes of 1300 .. 12000 lines, just beyond multiples of 256 .. 8192, with the property-relevant event placed at and after such multiples; DESIGN 10.4 round 13).")
 
 
 def _noop_reader(fmt):
